@@ -60,14 +60,15 @@ Proof.
 Qed.
 
 Lemma open_key_payload k d ms : open_dgram (Some k) d = Ok ms ->
-  exists p, d_body d = Sealed k (d_hdr d) p /\ h_len (d_hdr d) = len p
+  exists p, d_body d = Sealed k (d_hdr d) p /\ len p <= h_len (d_hdr d) <= len p + 16
             /\ decode_msgs (h_type (d_hdr d)) (h_count (d_hdr d)) p = Ok ms.
 Proof.
   intros H. destruct (open_key_authentic _ _ _ H) as [p Hb]. exists p. split; [exact Hb|].
   unfold open_dgram in H. rewrite Hb in H.
   rewrite Z.eqb_refl in H.
   replace (header_eqb (d_hdr d) (d_hdr d)) with true in H by (symmetry; apply header_eqb_eq; reflexivity).
-  destruct (h_len (d_hdr d) =? len p) eqn:E; cbn in H; [|discriminate].
+  cbn [andb] in H.
+  destruct ((len p <=? h_len (d_hdr d)) && (h_len (d_hdr d) <=? len p + 16)) eqn:E; cbn in H; [|discriminate].
   split; [lia|exact H].
 Qed.
 
